@@ -3,7 +3,7 @@
 From Coq Require Import String List Bool.
 From KV Require Import Lib.Str Lib.ODict Model.PreserveCore Model.Preserve
                        Proofs.PreserveStr Proofs.PreserveTree Proofs.PreserveTop.
-From KV Require Spec.RefExpand16 Model.EngineDomain07 Proofs.Shipped07Cpp Proofs.Shipped07Cs.
+From KV Require Spec.RefExpand16 Model.EngineDomain07 Proofs.Shipped07Cpp Proofs.Shipped07Cs Proofs.Shipped07X.
 Import ListNotations.
 Open Scope string_scope.
 
@@ -80,3 +80,20 @@ Theorem C01_fixed_point_shipped_cs : forall (e : RefExpand16.elements) path (u :
   = (on_disk u (items_of (Shipped07Cs.fresh_cs e)), []).
 Proof. exact Shipped07Cs.fixed_point_cs. Qed.
 Print Assumptions C01_fixed_point_shipped_cs.
+
+(* ... and for the whole shipped files TEMPLATEStateMachine.py / TEMPLATEStateMachine.h (Props/C07.v: C07_wf_out_TEMPLATEStateMachine_py / _h): all their USER tags
+   are fixed text; names_ok_py / names_ok_h (syntactic): alphanumeric names; the initial state, the per-state transition lists, the table cells and the
+   oracle's signature strings free of '{', backslash and CR (C07_dyn_plain_of_names) *)
+Theorem C01_fixed_point_shipped_py : forall (e : RefExpand16.elements) path (u : string -> list string),
+  Shipped07X.names_ok_py e = true -> EngineDomain07.user_lines_plain e (EngineDomain07.strip Shipped07X.t_py) = true -> (forall k, block_ok (u k) = true) ->
+  regen_file path (Shipped07X.fresh_py e) (on_disk u (items_of (Shipped07X.fresh_py e)))
+  = (on_disk u (items_of (Shipped07X.fresh_py e)), []).
+Proof. exact Shipped07X.fixed_point_py. Qed.
+Print Assumptions C01_fixed_point_shipped_py.
+
+Theorem C01_fixed_point_shipped_h : forall (e : RefExpand16.elements) path (u : string -> list string),
+  Shipped07X.names_ok_h e = true -> EngineDomain07.user_lines_plain e (EngineDomain07.strip Shipped07X.t_h) = true -> (forall k, block_ok (u k) = true) ->
+  regen_file path (Shipped07X.fresh_h e) (on_disk u (items_of (Shipped07X.fresh_h e)))
+  = (on_disk u (items_of (Shipped07X.fresh_h e)), []).
+Proof. exact Shipped07X.fixed_point_h. Qed.
+Print Assumptions C01_fixed_point_shipped_h.
